@@ -63,7 +63,7 @@ func vfPayloadFor(size int, zero bool, mk func([]byte) proto.Message) []byte {
 // TestVerifC19ServerSharp: the reference server accepts exactly the limit and
 // rejects one byte more with resource_exhausted, on the uncompressed size.
 func TestVerifC19ServerSharp(t *testing.T) {
-	rep := verifkit.Begin("C19", "server-sharp", "real reference server (h2c) with MessageReceiveLimit L in {64, 4096, 204800, 1048576}; connect-go client (third-party, no limit) sends unary and client-stream messages (the latter after a small first message that does or does not configure an error response) of exactly L-1, L, L+1 serialized bytes x {Connect, gRPC, gRPC-Web} x 6 compressions x {all-zero, incompressible} padding; oracle: <= L accepted and echoed, L+1 resource_exhausted; distinct = (limit, protocol, compression, padding, delta, rpc)")
+	rep := verifkit.Begin("C19", "server-sharp", "real reference server (h2c) with MessageReceiveLimit L in {64, 4096, 204800, 1048576}; connect-go client (third-party, no limit) sends unary and client-stream messages (the latter after a small first message that does or does not configure an error response) of exactly L-1, L, L+1 serialized bytes x {Connect, gRPC, gRPC-Web} x 6 compressions x {all-zero, incompressible} padding; plus long client streams (16, 17, 40 messages of exactly L, many small ones; last message at L or L+1); oracle: <= L accepted and echoed, L+1 resource_exhausted, per message; distinct = (limit, protocol, compression, padding, delta, rpc)")
 	defer rep.Write()
 	for _, L := range []int{64, 4096, 200 * 1024, 1 << 20} {
 		srv, err := vfStartServer(&conformancev1.ServerCompatRequest{Protocol: conformancev1.Protocol_PROTOCOL_CONNECT, HttpVersion: conformancev1.HTTPVersion_HTTP_VERSION_2, MessageReceiveLimit: uint32(L)}, true)
@@ -268,6 +268,70 @@ func TestVerifC19ServerSharp(t *testing.T) {
 				}
 			}
 		}
+		// the limit is per message, not a budget for the stream: long client streams of messages that are each
+		// within the limit (16 x limit and more in total) are accepted; the same stream with a last message one byte over is refused
+		if L <= 4096 || verifkit.Thorough() {
+			for _, po := range []struct {
+				name string
+				opt  connect.ClientOption
+			}{{"connect", nil}, {"grpc", connect.WithGRPC()}, {"grpc-web", connect.WithGRPCWeb()}} {
+				for _, shape := range []struct {
+					count, size int
+				}{{16, L}, {17, L}, {40, L}, {20 * (L/16 + 1), 16}} {
+					for _, lastDelta := range []int{0, 1} {
+						if (shape.size != L && lastDelta != 0) || shape.count > 10000 || shape.count*shape.size > 24<<20 {
+							continue
+						}
+						var opts []connect.ClientOption
+						if po.opt != nil {
+							opts = append(opts, po.opt)
+						}
+						cl := conformancev1connect.NewConformanceServiceClient(httpc, base, opts...)
+						name := fmt.Sprintf("Sharp/%d/long-stream/%s/%dx%d/%+d", L, po.name, shape.count, shape.size, lastDelta)
+						rep.Eval(1)
+						rep.DistinctKey(L, po.name, shape.count, shape.size, lastDelta, "long-stream")
+						w := map[string]any{"limit": L, "protocol": po.name, "messages": shape.count, "message_size": shape.size, "last_message_delta": lastDelta, "total_bytes": shape.count * shape.size}
+						mk := func(b []byte) proto.Message { return &conformancev1.ClientStreamRequest{RequestData: b} }
+						d, dLast := vfPayloadFor(shape.size, false, mk), vfPayloadFor(shape.size+lastDelta, false, mk)
+						if d == nil || dLast == nil {
+							rep.Count("unreachable_size", 1)
+							continue
+						}
+						stream := cl.ClientStream(context.Background())
+						stream.RequestHeader().Set("X-Test-Case-Name", name)
+						_ = stream.Send(&conformancev1.ClientStreamRequest{RequestData: []byte("1st")})
+						for i := 0; i < shape.count; i++ {
+							if i == shape.count-1 {
+								_ = stream.Send(&conformancev1.ClientStreamRequest{RequestData: dLast})
+							} else {
+								_ = stream.Send(&conformancev1.ClientStreamRequest{RequestData: d})
+							}
+						}
+						resp, err := stream.CloseAndReceive()
+						verdict := "accepted"
+						if err != nil {
+							verdict = connect.CodeOf(err).String()
+							w["error"] = verifkit.Trunc(err.Error(), 200)
+						}
+						w["verdict"] = verdict
+						switch {
+						case lastDelta > 0 && verdict != "resource_exhausted":
+							rep.Violation("sharp/server/long-stream/over-limit-"+verdict, fmt.Sprintf("%d messages, the last of %d bytes (limit %d): %s, want resource_exhausted", shape.count, shape.size+lastDelta, L, verdict), w)
+						case lastDelta == 0 && verdict != "accepted":
+							rep.Violation("sharp/server/long-stream/within-limit-"+verdict, fmt.Sprintf("%d messages of %d bytes each (limit %d per message): %s, want accepted", shape.count, shape.size, L, verdict), w)
+						case lastDelta == 0:
+							if rs := resp.Msg.GetPayload().GetRequestInfo().GetRequests(); len(rs) != shape.count+1 {
+								rep.Violation("sharp/server/long-stream/echo-wrong", fmt.Sprintf("accepted but %d of %d requests echoed", len(rs), shape.count+1), w)
+							} else {
+								rep.Count("long_streams_accepted", 1)
+							}
+						default:
+							rep.Count("long_streams_last_over_refused", 1)
+						}
+					}
+				}
+			}
+		}
 		for _, l := range srv.stderr.Lines() {
 			rep.Count("server_stderr_lines", 1)
 			_ = l
@@ -277,6 +341,7 @@ func TestVerifC19ServerSharp(t *testing.T) {
 	_ = http.MethodPost
 	rep.Sample(map[string]any{"limit": 4096, "protocol": "grpc", "compression": "zstd", "size": 4097, "expect": "resource_exhausted although the zero padding compresses to a few bytes"})
 	rep.RequireMin("buffered_multi_message_bodies_accepted", 12)
+	rep.RequireMin("long_streams_accepted", 12)
 	rep.RequireMin("over_limit_cases", 100)
 	rep.RequireMin("within_limit_accepted", 150)
 }
